@@ -1,8 +1,29 @@
 package props
 
+import (
+	"strings"
+
+	"golang.org/x/tools/go/ssa"
+
+	"wpverif/internal/load"
+)
+
+func init() { register("C15", checkC15) }
+
 // c15Obligations: the validated-buffer typestate of the MI decoder (E9);
 // shared by C15 and, as inherited obligations, by C01 and C06.
 func c15Obligations(e *Env, why string) {
-	// implemented in typestate.go once E9 is built
 	micetypestate(e, why)
+}
+
+func checkC15(e *Env) {
+	e.R.Explanation = "Decided (structural necessary conditions of C15), over all paths of NewDecoder, Read and readNextRecord: (1) only those three functions store to the decoder's out/nextProof/recordBuf fields, the record buffer is filled only by io.ReadFull in readNextRecord and the chained proof only by the copy there; (2) every store of a non-nil value to out is dominated by the pass-edge of validateRecord(record, nextProof, flag) on a record that contains the stored slice, or advances out within itself; (3) nextProof is overwritten only with the tail of a record validated with flag=false and set to nil only after a validation with flag=true; (4) the short-read path validates with last=true (and refuses a read that ends inside the proof), the full-read path with last=false, the draft-02 empty final record with last=true; validateRecord hashes 0x00/0x01 exactly as Encode does; (5) Read copies to the caller only from out and reports io.EOF only when out is empty and nextProof is nil; (6) NewDecoder: the record-size gate (non-zero, <= the caller's limit) dominates the allocation, the empty-stream shortcut is taken only on EOF, for non-draft-02, after validateRecord(nil, proof, true); (7) validateRecord returns bytes.Equal(SHA-256(record||flag), proof) and the parsed proof is 32 bytes of the expected algorithm; (8) the buffer is refilled only when out is empty; plus E6 on the allocation size. " +
+		"Not decided: collision resistance; callers that read the underlying stream concurrently."
+	e.R.RuleText = "E9 typestate: who-writes rule on the decoder's fields and buffers; store/call sites dominated by validateRecord pass-edges (must-pass-through to an instruction); E7 flag table by CFG folding; E6 U4 on the record buffer"
+	c15Obligations(e, "own property")
+	scope := parserScope(e, []string{"signedexchange/mice.(Encoding).NewDecoder", "signedexchange/mice.(*decoder).Read"})
+	runUntrusted(e, scope, func(f *ssa.Function) bool { return strings.HasPrefix(load.FuncName(f), "signedexchange/mice.") }, nil)
+	e.R.Floor("U4", 1)
+	e.R.Floor("U3", 2)
+	e.R.Floor("TABLE", 4)
 }
